@@ -56,6 +56,19 @@ type cliScenario struct {
 	CloseAt     int          `json:"close_at"` // odd tick, -1: closed at the end
 	DoubleClose bool         `json:"double_close"`
 	LogDropped  bool         `json:"log_dropped"` // nclient6: WithLogDroppedPackets
+	Dest        int          `json:"dest,omitempty"` // destination selector (adapter.setDest): other ports, broadcast, zoned IPv6 addresses
+}
+
+// blockedAcrossDeadline: a matcher is held (by the caller's own code) past the deadline of a try. What the client
+// does next depends on Go's random choice between a fired timer and a non-empty buffer, so the exact model does not
+// apply; cmpCliLoose asserts what holds for every such choice.
+func (sc cliScenario) blockedAcrossDeadline() bool {
+	for _, c := range sc.Calls {
+		if c.Matcher == 4 && c.ReleaseAt >= c.Start+sc.T {
+			return true
+		}
+	}
+	return false
 }
 
 type cliResult struct {
@@ -107,6 +120,7 @@ func runCliScenario(t *testing.T, sc cliScenario) cliOutcome {
 		if sc.V6 {
 			ad = &v6Adapter{}
 		}
+		ad.setDest(sc.Dest)
 		conn := netsim.New(8192)
 		if err := ad.start(conn, time.Duration(sc.T)*tick, sc.Tries, sc.LogDropped); err != nil {
 			panic(err)
@@ -246,6 +260,12 @@ func cliHorizon(sc cliScenario) int {
 		if c.ReleaseAt > end {
 			end = c.ReleaseAt + 2
 		}
+		if c.Matcher == 4 && c.ReleaseAt >= c.Start+sc.T {
+			// held past a deadline: the rest of the schedule may start over at the release
+			if e := c.ReleaseAt + sc.T*((1<<uint(n))-1) + 2; e > end {
+				end = e
+			}
+		}
 	}
 	for _, d := range sc.Dels {
 		if d.At+2 > end {
@@ -288,6 +308,7 @@ func modelCli(sc cliScenario) ([]cliResult, []cliWrite) {
 	if sc.V6 {
 		ad = &v6Adapter{}
 	}
+	ad.setDest(sc.Dest)
 	calls := make([]*mCall, len(sc.Calls))
 	for i := range sc.Calls {
 		calls[i] = &mCall{cliCall: sc.Calls[i]}
@@ -484,6 +505,9 @@ func cmpCli(prop string, sc cliScenario, got cliOutcome, asp int) *obs.Fail {
 		}
 		return nil
 	}
+	if sc.blockedAcrossDeadline() {
+		return cmpCliLoose(prop, name, sc, got)
+	}
 	want, wantWrites := modelCli(sc)
 	for i := range want {
 		g, w := got.Results[i], want[i]
@@ -511,6 +535,7 @@ func cmpCli(prop string, sc cliScenario, got cliOutcome, asp int) *obs.Fail {
 					if sc.V6 {
 						ad = &v6Adapter{}
 					}
+					ad.setDest(sc.Dest)
 					if sent := ad.datagram(d.Kind, d.Xid, d.Typ, d.Serial, d.Op, d.HType, d.PadTo); !bytes.Equal(sent, g.Wire) {
 						return obs.Failf(prop+"/"+name+"/response-content", fmt.Sprintf("call %d returns datagram %d as delivered (%d bytes)", i, d.Serial, len(sent)), "%d bytes, differs at byte %d", len(g.Wire), firstDiff(sent, g.Wire))
 					}
@@ -538,6 +563,48 @@ func cmpCli(prop string, sc cliScenario, got cliOutcome, asp int) *obs.Fail {
 			}
 			if wb := got.ReqWire[wantWrites[i].Call]; !bytes.Equal(got.Writes[i].B, wb) {
 				return obs.Failf(prop+"/"+name+"/transmission-bytes", fmt.Sprintf("transmission %d identical to the request's encoding", i), "differs at byte %d: %x vs %x", firstDiff(got.Writes[i].B, wb), clipb(got.Writes[i].B[firstDiff(got.Writes[i].B, wb):]), clipb(wb[firstDiff(got.Writes[i].B, wb):]))
+			}
+		}
+	}
+	return nil
+}
+
+// cmpCliLoose: assertions that hold whatever the scheduler picks when a matcher was held past a try deadline
+// (single-call scenarios): the call returns, no later than a full schedule after its matcher was released; what it
+// returns is a datagram that passed the filters, carries its id, arrived while it was registered and satisfies the
+// matcher — or the no-response error; never (nil, nil); no goroutine is left (checked by the caller via Problem).
+func cmpCliLoose(prop, name string, sc cliScenario, got cliOutcome) *obs.Fail {
+	n := sc.Tries
+	if n < 0 {
+		n = 11
+	}
+	for i, c := range sc.Calls {
+		g := got.Results[i]
+		bound := max(c.ReleaseAt, c.Start) + sc.T*((1<<uint(n))-1)
+		if !g.Done {
+			return obs.Failf(prop+"/"+name+"/call-never-returned", fmt.Sprintf("call %d returns by tick %d (one full schedule after its matcher was released at %d)", i, bound, c.ReleaseAt), "still pending at the end of the scenario")
+		}
+		if g.Nil && g.Err == "nil" {
+			return obs.Failf(prop+"/"+name+"/nil-nil", fmt.Sprintf("call %d: a response or an error", i), "(nil, nil) at tick %d", g.At)
+		}
+		if g.At > bound && sc.Tries >= 0 {
+			return obs.Failf(prop+"/"+name+"/return-instant", fmt.Sprintf("call %d returns by tick %d (one full schedule after its matcher was released at %d)", i, bound, c.ReleaseAt), "tick %d (%s)", g.At, g.Err)
+		}
+		switch g.Err {
+		case "nil":
+			ok := false
+			for _, d := range sc.Dels {
+				if d.Serial == g.Serial && passesFilters(sc.V6, d) && d.Xid == c.Xid && d.Typ == c.Want && d.At >= c.Start && d.At <= g.At {
+					ok = true
+				}
+			}
+			if !ok {
+				return obs.Failf(prop+"/"+name+"/wrong-response", fmt.Sprintf("call %d returns a datagram of its own transaction that arrived while it waited and satisfies its matcher", i), "serial %d (type %d) at tick %d", g.Serial, g.Typ, g.At)
+			}
+		case "no-response":
+		default:
+			if sc.Tries >= 0 {
+				return obs.Failf(prop+"/"+name+"/outcome", fmt.Sprintf("call %d: a response or the no-response error", i), "%s at tick %d", g.Err, g.At)
 			}
 		}
 	}
